@@ -1,8 +1,128 @@
-"""C10 - edit-batch property: generators in harness/editrun.py, oracle + region classification in harness/props/_judges.py,
-model correspondence in harness/editrun.py (Engine.apply_edits extracted from Coq), theorems in coq/Props/C10.v"""
-from harness.props import _edits, _judges as J
+"""C10 - comments requested with an edit or a reply are never lost or misattached.
+(a) edit batches whose edits carry comments: model correspondence + comment oracle (harness/editrun.py);
+(b) reply sessions: REPLY sequences (to roots, to replies, to comments created earlier in the same session, to missing ids)
+    on documents with comment threads: Engine.review_session (extracted) vs RedlineEngine.apply_review_actions + reply oracle."""
+import json, random, re
+from multiprocessing import Pool
+from harness import core, absdoc as A, docgen, docrun, editrun as E
+from harness.props import _edits, _judges as J, C06
 PID = 'C10'
+
+def rwork(job):
+    b, acts = job
+    try: return docrun.engine_review(b, acts, E.AUTHOR), None
+    except Exception as e: return None, '%s: %s' % (type(e).__name__, e)
+
+def root_of(comments, cid):
+    by = {c['id']: c for c in comments}; seen = set()
+    while cid in by and by[cid].get('parent') and cid not in seen:
+        seen.add(cid); cid = by[cid]['parent']
+    return cid
+
+def reply_oracle(din, dout, acts, ap, sk, raw_out, out_bytes):
+    old = {c['id']: c for c in din['comments']}
+    for c in din['comments']:
+        y = next((k for k in dout['comments'] if k['id'] == c['id']), None)
+        if y is None or (y['author'], y['text'].strip(), y.get('parent')) != (c['author'], c['text'].strip(), c.get('parent')):
+            return 'existing comment %s changed or vanished' % c['id']
+    new = [c for c in dout['comments'] if c['id'] not in old]
+    known = set(old); exp_new = []; exp_ap = exp_sk = 0
+    nxt = max([int(i) for i in old if i.isdigit()] + [0]) + 1
+    marks = set(docrun.mark_ids(din))
+    for k, t, x in acts:
+        tid = t[4:] if t.startswith('Com:') else (None if t.startswith('Chg:') else t)
+        if k == 'REPLY' and tid is not None and tid in known:
+            exp_new.append((str(nxt), tid, x or '')); known.add(str(nxt)); nxt += 1; exp_ap += 1
+        elif k in ('ACCEPT', 'REJECT') and not t.startswith('Com:') and (t[4:] if t.startswith('Chg:') else t) in marks:
+            exp_ap += 1; marks.discard(t[4:] if t.startswith('Chg:') else t)
+        else: exp_sk += 1
+    if (ap, sk) != (exp_ap, exp_sk): return 'applied/skipped = %d/%d, expected %d/%d (a reply to a comment that does not exist must be skipped, one to an existing comment applied)' % (ap, sk, exp_ap, exp_sk)
+    if len(new) != len(exp_new): return '%d replies applied but %d new comments exist' % (len(exp_new), len(new))
+    allc = dout['comments']
+    for (nid, tid, text) in exp_new:
+        c = next((k for k in new if k['id'] == nid), None)
+        if c is None: return 'no new comment with the next free id %s' % nid
+        if c['author'] != E.AUTHOR or c['text'].strip() != text.strip(): return 'reply %s has author %r / text %r' % (nid, c['author'], c['text'])
+        if root_of(allc, nid) != root_of(allc, tid): return 'reply %s is not threaded under the thread of comment %s (thread root %s, expected %s)' % (nid, tid, root_of(allc, nid), root_of(allc, tid))
+        # shown with the thread: some metadata block lists both
+        blocks = [bk for bk in re.findall(r'\{>>(.*?)<<\}', raw_out, re.S) if '[Com:%s]' % nid in bk]
+        anchored = any(n == ['crs', root_of(allc, tid)] for p in A.paras(dout) for n in _flat(p['nodes']))
+        if anchored and not blocks and not any(k in ('ACCEPT', 'REJECT') for k, _, _ in acts): return 'reply %s is not shown in the raw view' % nid
+        if blocks and not any('[Com:%s]' % root_of(allc, tid) in bk for bk in blocks): return 'reply %s is shown apart from the thread it answers' % nid
+    iss = docrun.struct_issues(out_bytes)
+    if iss: return iss[0]
+    return None
+def _flat(nodes):
+    for n in nodes:
+        yield n
+        if n[0] in ('ins', 'del'): yield from _flat(n[3])
+
+def reply_exploration(ck, tier, rng):
+    docrun.impl_init()
+    n = 150 if tier == 'quick' else 3000
+    jobs = []; docs = []
+    for _ in range(n):
+        d = docgen.gen_doc(rng, 'full')
+        if not d['comments']: continue
+        ids = [c['id'] for c in d['comments']]; mx = max(int(i) for i in ids)
+        acts = []; created = 0
+        for _ in range(rng.randint(1, 5)):
+            x = rng.random()
+            if x < .45: t = 'Com:' + rng.choice(ids)
+            elif x < .75 and created: t = 'Com:' + str(mx + rng.randint(1, created))          # a comment created earlier in this session
+            elif x < .85: t = 'Com:999'
+            elif x < .92: t = rng.choice(ids)                                                  # bare id
+            else: t = 'Chg:' + rng.choice(ids)
+            acts.append(('REPLY', t, 'reply %d to %s' % (len(acts), t)))
+            tid = t[4:] if t.startswith('Com:') else (None if t.startswith('Chg:') else t)
+            if tid is not None and (tid in ids or (tid.isdigit() and mx < int(tid) <= mx + created)): created += 1
+        if rng.random() < .3: acts.insert(rng.randrange(len(acts) + 1), ('ACCEPT', 'Chg:1', None))
+        docs.append(d); jobs.append((A.build(d), acts))
+    with Pool(core.NPROC, initializer=docrun.impl_init) as pool:
+        res = pool.map(rwork, jobs, chunksize=8)
+    dins = [A.read(b, table=list(d['rpr_table'])) for (b, _), d in zip(jobs, docs)]
+    mo = core.run_driver('review', [C06.review_line(din, E.AUTHOR, acts) for din, (b, acts) in zip(dins, jobs)])
+    ok = 0; distinct = set()
+    for d, din, (b, acts), (r, err), m in zip(docs, dins, jobs, res, mo):
+        ck.count()
+        case = {'doc': {k: d[k] for k in ('stories', 'comments', 'next_uid', 'rpr_table')}, 'actions': acts}
+        if err: ck.violation('oracle', case, 'review session raised ' + err); continue
+        ap, sk, ob = r
+        dout = docrun.canon_session(A.read(ob, table=din['rpr_table']), din)
+        f = reply_oracle(din, dout, acts, ap, sk, docrun.extract(ob, False), ob)
+        if f: ck.violation('oracle', dict(case, applied=ap, skipped=sk), f)
+        cnt, md = m.split('|', 1); mdoc = A.un_doc(A.sx_parse(md))
+        if cnt != '%d %d' % (ap, sk): ck.corr_broken.append(('Engine.review_session counts vs apply_review_actions', dict(case, model=cnt, impl=[ap, sk])))
+        elif docrun.doc_shape(mdoc) != docrun.doc_shape(dout): ck.corr_broken.append(('Engine.review_session vs apply_review_actions (anchors / run structure)', dict(case, diff=docrun.first_diff(docrun.doc_shape(mdoc), docrun.doc_shape(dout)))))
+        elif docrun.comments_key(mdoc) != docrun.comments_key(dout): ck.corr_broken.append(('Engine.review_session vs apply_review_actions (comment records, threading)', dict(case, model=docrun.comments_key(mdoc), impl=docrun.comments_key(dout))))
+        else: ok += 1
+        if ap: distinct.add(json.dumps(case, sort_keys=True)[:2000])
+    ck.cov['reply_sessions'] = len(jobs); ck.cov['reply_sessions_model_agrees'] = ok
+    if jobs: ck.sample({'reply_session': jobs[0][1]})
+    return distinct
+
 def run(tier, seed):
-    return _edits.run_property(PID, tier, seed, ['Props/C10.v'], ('exact','mixed'), J.judge_C10, 'batches where most edits carry a comment (replacement, insertion, deletion)')
+    ck = core.Check(PID, tier, seed)
+    ck.proof_gate(['Props/C10.v'], extra_trusted=_edits.TRUSTED + ['random paraIds / durableIds of the auxiliary comment parts are not modelled (threading is observed through commentsExtended by the reader)'])
+    rng = random.Random(seed)
+    d1 = reply_exploration(ck, tier, rng)
+    extra = []
+    for fid, case in core.finding_cases(PID):
+        if case and 'edits' in case:
+            d = dict(case['doc']); d.setdefault('features', ['finding:%s' % fid]); extra.append((d, [tuple(e) for e in case['edits']]))
+    d2 = _edits.explore(ck, tier, seed, ('exact', 'mixed', 'blocks'), J.judge_C10, n_quick=240, n_thorough=5000, extra_cases=extra)
+    ck.cov['traces_validated_against_impl'] = ck.cov.get('traces_validated_against_impl', 0) + ck.cov['reply_sessions_model_agrees']
+    return ck.finish(rule='(a) documents with comment threads x sequences of 1-5 REPLY actions (to roots, to replies, to comments created earlier in the same session, to missing / bare / Chg: ids), '
+                          '(b) edit batches where edits carry comments (replacement, insertion, deletion, multi-line and heading new text). non-trivial = at least one action / edit applied; distinct by (document, sequence).',
+                     distinct=len(d1) + len(d2))
 def replay(path):
+    r = json.load(open(path)); c = r['case']
+    if 'actions' in c:
+        d = c['doc']; d.setdefault('features', []); docrun.impl_init(); b = A.build(d)
+        res, err = rwork((b, [tuple(a) for a in c['actions']]))
+        if err: print('VIOLATION property=C10 replay=%s' % path); return 1
+        ap, sk, ob = res; din = A.read(b, table=list(d['rpr_table'])); dout = docrun.canon_session(A.read(ob, table=din['rpr_table']), din)
+        f = reply_oracle(din, dout, [tuple(a) for a in c['actions']], ap, sk, docrun.extract(ob, False), ob); print(ap, sk, f)
+        if f: print('VIOLATION property=C10 replay=%s' % path); return 1
+        print('property holds on this input'); return 0
     return _edits.replay_case(path, J.judge_C10, PID)
